@@ -192,8 +192,8 @@ func execC12(c *Case) {
 		}
 	case "closest", "closest-n":
 		cc := c06Gen(r, "x", "C06")
-		q := renderFasta(strings.Split(cc.Get("qnames"), ","), strings.Split(cc.Get("qseqs"), ","), lay)
-		t := renderFasta(strings.Split(cc.Get("tnames"), ","), strings.Split(cc.Get("tseqs"), ","), lay)
+		q := renderFasta(splitNames(cc.Get("qnames")), strings.Split(cc.Get("qseqs"), ","), lay)
+		t := renderFasta(splitNames(cc.Get("tnames")), strings.Split(cc.Get("tseqs"), ","), lay)
 		run = func(cfg runCfg) result {
 			return safeRun(60*time.Second, func() (string, error) {
 				var out bytes.Buffer
